@@ -27,11 +27,13 @@ Parameters (DESIGN §3.3), supplied by the adapter on the protocol line, never c
   effect (fresh rows / data / cache objects, phases) is modelled;
 * the unit table (pint's factors) and the molecular weights.
 
-The model is written to the behaviour of the code **with the repairs of fixes_proposed/C11-1..3**:
-the molar-volume cache of a `VolumetricFlowDict` is keyed on (T, P, phase); `unlink` and the
-non-sharing branch of `link_with` bind a *new* `_data_cache` dict; `_expand_phases` clears the
-`_data_cache`.  The unrepaired variants are kept as `…Old` definitions for the counterexample
-theorems.  `ThermalCondition.in_equilibrium`'s 1e-12 tolerance is modelled as equality.
+The model mirrors the code with the repairs of fixes_proposed/C11-1..4 (committed in /repo as f61fcd4, a11de35,
+f0492a1, cee4892) and the later C12/C13 repairs it depends on (58e0e04 `unlink` binds a copied indexer; 77165b5
+`Stream.copy_like` from a multi-phase stream starts from a blank indexer; 5b09455 / 7d7173c `MaterialIndexer.copy_like`
+and `mix_from` look phases up after `_expand_phases`): the molar-volume cache of a `VolumetricFlowDict` is keyed on
+(T, P, phase); `unlink` and the non-sharing branch of `link_with` bind a *new* `_data_cache` dict; `_expand_phases`
+clears the `_data_cache`.  The unrepaired variants are kept as `…Old` definitions for the counterexample theorems.
+`ThermalCondition.in_equilibrium`'s 1e-12 tolerance is modelled as equality.
 -/
 namespace ThermoVerif.FlowViews
 
@@ -627,16 +629,27 @@ def World.copyLikeWith (clear : Bool) (w : World) (sid oid : Nat) (R : List (Lis
     let w2 : World := { w1 with c := { w1.c with phs := upd w1.c.phs s.ph (w1.c.phs o.ph) } }
     .ok (w2.copyTC sid oid)
   | false, true =>
-    if o.phases.length < 2 then .error .precondition
-    else match w.setPhases sid o.phases R with
-      | .error e => .error e
-      | .ok w1 => .ok (w1.copyTC sid oid)
+    (match o.phases with
+     | [] => .error .precondition
+     | [c] =>
+       -- a MultiStream holding one phase: `self.phase = phase`, contents mapped by chemical, T and P copied
+       if R.length ≠ 1 then .error .shape else
+       let w1 := w.setContents sid R
+       let w2 : World := { w1 with c := { w1.c with phs := upd w1.c.phs s.ph c } }
+       .ok (w2.copyTC sid oid)
+     | _ =>
+       -- `self._imol = self._imol.blank(phases[0], …); self.phases = phases`: a brand-new (empty) indexer is
+       -- re-filed under the source's phases, so the receiver's old phase never matters; then the rows are copied
+       if R.length ≠ o.phases.length then .error .shape
+       else .ok ((w.rebind sid true o.phases none s.th R).copyTC sid oid))
   | true, false =>
-    -- a phase the receiver lacks: the code expands the phases but then looks the phase up in the phase
-    -- indexer it fetched *before* expanding, which raises UndefinedPhase (reported; not this property's concern)
-    if (phaseIndex s.phases (w.c.phs o.ph)).isNone then .error .undefinedPhase
-    else if R.length ≠ s.phases.length then .error .shape
-    else .ok ((w.setContents sid R).copyTC sid oid)
+    -- a phase the receiver cannot file makes `MaterialIndexer.copy_like` expand the phases first
+    (match (if (phaseIndex s.phases (w.c.phs o.ph)).isSome then .ok w
+            else World.expandPhases clear w sid [w.c.phs o.ph]) with
+     | .error e => .error e
+     | .ok w1 =>
+       if R.length ≠ (w1.stream sid).phases.length then .error .shape
+       else .ok ((w1.setContents sid R).copyTC sid oid))
   | true, true =>
     (match (if s.phases = o.phases || compat s.phases = compat o.phases then .ok w
             else World.expandPhases clear w sid o.phases) with
@@ -675,15 +688,17 @@ def World.sync (w : World) (sid : Nat) (T P : Rat) (ph : Option Char) (R : List 
     .ok { w1 with c := { w1.c with tcs := upd w1.c.tcs s.tc (T, P), phs := phs } }
 
 /-- `MultiStream.mix_from(others, energy_balance=False)` with at least two non-empty inlets whose phases are
-`others`: the pressure is set in place, the contents become `R`.  An inlet phase the receiver cannot file makes
-`MaterialIndexer.mix_from` expand the phases and then fail with `KeyError` (it keeps using the phase tuple it read
-before expanding; reported, not this property's concern), so that case is an error here. -/
+`others`: `MaterialIndexer.mix_from` expands the phases if one of them cannot be filed, the pressure is set in place,
+the contents become `R`. -/
 def World.mixInto (w : World) (sid : Nat) (others : List Char) (P : Rat) (R : List (List Rat)) : Except Err World :=
   let s := w.stream sid
-  if !s.multi then .error .precondition
-  else if !others.all (fun c => (phaseIndex s.phases c).isSome) then .error .undefinedPhase
-  else if R.length ≠ s.phases.length then .error .shape
-  else .ok ((w.setContents sid R).setP sid P)
+  if !s.multi then .error .precondition else
+  match (if others.all (fun c => (phaseIndex s.phases c).isSome) then .ok w
+         else World.expandPhases true w sid others) with
+  | .error e => .error e
+  | .ok w1 =>
+    if R.length ≠ (w1.stream sid).phases.length then .error .shape
+    else .ok ((w1.setContents sid R).setP sid P)
 
 /-! ### operations of a history -/
 
